@@ -246,6 +246,49 @@ def public_export(kty_i: int, native_private: bool, has_d: bool, has_crt: bool, 
     return all(m in out for m in REQUIRED[kty])
 
 
+def generated_public(kty_i: int, idx: int, auto_kid: bool, via_registry: bool, with_params: bool, via_set: bool) -> bool:
+    """
+    pre: 1 <= kty_i <= 3 and 0 <= idx <= 3
+    post: _
+    """
+    # a key GENERATED as public-only: every default / public export, directly or through a key set, is free of private members and of the
+    # private accessors' values; asking for a private export is an error
+    rt.tick()
+    kty = TYPES[kty_i]
+    crv = {"EC": ["P-256", "P-384", "P-521", "secp256k1"], "OKP": ["Ed25519", "Ed448", "X25519", "X448"], "RSA": [2048, 2048, 3072, 4096]}[kty][idx]
+    params = {"use": "sig"} if with_params else None
+    env = ice.Env(False)
+    with env.installed(ice.keygen_patches()):
+        try:
+            if via_registry:
+                key = JWKRegistry.generate_key(kty, crv, params, private=False, auto_kid=auto_kid)
+            else:
+                key = CLS[kty].generate_key(crv, params, private=False, auto_kid=auto_kid)
+            outs = [key.as_dict(), key.as_dict(private=False), dict(key.dict_value)]
+            if via_set:
+                ks = KeySet([key])
+                outs += [ks.as_dict()["keys"][0], ks.as_dict(private=False)["keys"][0]]
+        except ice.HarnessError:
+            raise
+        except Exception:  # noqa
+            return False
+        if key.is_private:
+            return False
+        for out in outs:
+            if any(m in out for m in PRIVATE[kty]) or not all(m in out for m in REQUIRED[kty]):
+                return False
+        if [c for c in env.calls if c["kind"] in ("private_numbers", "private_bytes", "private_bytes_raw")]:
+            return False                     # no private accessor of the generated native key was consulted
+        try:
+            key.as_dict(private=True)
+            return False
+        except ice.HarnessError:
+            raise
+        except Exception:  # noqa
+            pass
+    return True
+
+
 def private_of_public(kty_i: int, how: int, with_password: bool) -> bool:
     """
     pre: 1 <= kty_i <= 3 and 0 <= how <= 3
@@ -503,6 +546,10 @@ def set_export_import(t0: int, t1: int, private: Optional[bool], p0: bool, p1: b
             for m in REQUIRED[k.key_type]:
                 if x.get(m) != k.dict_value[m]:
                     return False             # every key survives the export (an oct key keeps its k)
+            if private is False and k.key_type != "oct" and any(m in x for m in PRIVATE[k.key_type]):
+                return False                 # C12: a public export of the set holds no private member, whatever key precedes this one
+            if private is not False and k.is_private and k.key_type != "oct" and "d" not in x:
+                return False
         # re-import: validation must accept what was exported
         for x in out["keys"]:
             try:
@@ -531,6 +578,43 @@ def replay(func, call):
     warnings.simplefilter("ignore")
     from vlib import refjose as R
     args = eval("(" + call + ",)")
+    if func == "generated_public":
+        kty_i, idx, auto_kid, via_registry, with_params, via_set = args
+        kty = TYPES[kty_i]
+        crv = {"EC": ["P-256", "P-384", "P-521", "secp256k1"], "OKP": ["Ed25519", "Ed448", "X25519", "X448"], "RSA": [2048, 2048, 3072, 4096]}[kty][idx]
+        params = {"use": "sig"} if with_params else None
+        key = JWKRegistry.generate_key(kty, crv, params, private=False, auto_kid=auto_kid) if via_registry else CLS[kty].generate_key(crv, params, private=False, auto_kid=auto_kid)
+        outs = {"as_dict()": key.as_dict(), "as_dict(private=False)": key.as_dict(private=False), "dict_value": dict(key.dict_value)}
+        if via_set:
+            ks = KeySet([key])
+            outs["KeySet.as_dict()"] = ks.as_dict()["keys"][0]
+            outs["KeySet.as_dict(private=False)"] = ks.as_dict(private=False)["keys"][0]
+        leaks = {n: [m for m in PRIVATE[kty] if m in o] for n, o in outs.items()}
+        leaks = {n: v for n, v in leaks.items() if v}
+        return {"violated": bool(leaks) or key.is_private, "key": "c12-generated-public", "detail": "%s key generated with private=False, auto_kid=%s: private members in %r" % (kty, auto_kid, leaks)}
+    if func == "set_export_import":
+        t0, t1, private, p0, p1 = args
+        keys = []
+        for i, (t, p) in enumerate(((t0, p0), (t1, p1))):
+            kty = TYPES[t]
+            j = dict(_real_jwk(R, kty, p), kid="k%d" % i)
+            keys.append(CLS[kty].import_key(j))
+        try:
+            out = KeySet(keys).as_dict(private=private)
+        except ValueError as e:
+            ok = private is True and any(not k.is_private for k in keys)
+            return {"violated": not ok, "key": "c14-set-export", "detail": "KeySet.as_dict(private=%r) raised %r" % (private, e)}
+        probs = []
+        for k, x in zip(keys, out["keys"]):
+            if private is False and k.key_type != "oct":
+                lk = [m for m in PRIVATE[k.key_type] if m in x]
+                if lk:
+                    probs.append("public export of a set [%s] contains %r of the %s key" % (", ".join(q.key_type for q in keys), lk, k.key_type))
+            if any(x.get(m) != k.dict_value[m] for m in REQUIRED[k.key_type]):
+                probs.append("%s key lost a required member in the export" % k.key_type)
+            if private is not False and k.is_private and k.key_type != "oct" and "d" not in x:
+                probs.append("private export lost d of the %s key" % k.key_type)
+        return {"violated": bool(probs), "key": "c12-set-export", "detail": "; ".join(probs) or "fine"}
     if func in ("validate_member", "validate_use_ops", "rsa_crt", "get_by_kid", "import_export"):
         # no stubs are involved in these harnesses: re-run concretely
         return rt.replay_by_rerun(globals(), func, call, key="c11-" + func)
@@ -610,7 +694,7 @@ def replay(func, call):
             except Exception as e:  # noqa
                 return {"violated": True, "key": "c11-bytes-export", "detail": "exported bytes do not load as expected: %s" % type(e).__name__}
         return {"violated": False, "detail": "export fine"}
-    if func in ("thumbprint", "kid_rules", "set_export_import"):
+    if func in ("thumbprint", "kid_rules"):
         probs = []
         for kty in TYPES:
             for private in (True, False):
